@@ -899,7 +899,16 @@ func (fr *Frame) fieldFuncCall(s *State, f *ast.SelectorExpr, sel *types.Selecti
 				return fr.freshResults(s, fr.typeOf(call)), true
 			}
 			for hn, hsort := range hs {
+				before := s.heap(hn, hsort)
 				s.havocHeap(hn, hsort)
+				if hn == "H:big" {
+					// big.Int objects held only in non-escaping locals of the caller are out of the callee's reach
+					for _, o := range fr.nonEscapingBigLocals() {
+						if v := s.vars[o]; v != nil && v.S != "" {
+							s.assume(fmt.Sprintf("(= (select %s %s) (select %s %s))", s.heap(hn, hsort), v.S, before, v.S))
+						}
+					}
+				}
 			}
 		}
 		return fr.freshResults(s, fr.typeOf(call)), true
@@ -1047,4 +1056,89 @@ func (fr *Frame) pureFuncVar(o *types.Var) bool {
 		return true
 	})
 	return okAll && seen
+}
+
+// nonEscapingBigLocals: local *big.Int variables of the function under verification whose every use is as the
+// receiver or an argument of a math/big call, or the left-hand side of an assignment from such a call chain.
+// Such an object cannot be reached by code that is not handed the variable.
+func (fr *Frame) nonEscapingBigLocals() []*types.Var {
+	if fr.fi == nil || fr.fi.Decl.Body == nil {
+		return nil
+	}
+	info := fr.fi.Pkg.TypesInfo
+	uses := map[*types.Var]int{}
+	okUses := map[*types.Var]int{}
+	isBigCall := func(c *ast.CallExpr) bool {
+		switch f := ast.Unparen(c.Fun).(type) {
+		case *ast.SelectorExpr:
+			if sel, ok := info.Selections[f]; ok {
+				if fn, ok := sel.Obj().(*types.Func); ok && fn.Pkg() != nil && fn.Pkg().Path() == "math/big" {
+					return true
+				}
+			} else if fn, ok := info.Uses[f.Sel].(*types.Func); ok && fn.Pkg() != nil && fn.Pkg().Path() == "math/big" {
+				return true
+			}
+		}
+		return false
+	}
+	local := func(id *ast.Ident) *types.Var {
+		o, _ := info.Uses[id].(*types.Var)
+		if o == nil || o.IsField() || o.Pkg() == nil || o.Parent() == o.Pkg().Scope() || !isBigInt(o.Type()) {
+			return nil
+		}
+		if id.Pos() < fr.fi.Decl.Body.Pos() || id.Pos() > fr.fi.Decl.Body.End() {
+			return nil
+		}
+		return o
+	}
+	ast.Inspect(fr.fi.Decl.Body, func(n ast.Node) bool {
+		switch x := n.(type) {
+		case *ast.Ident:
+			if o := local(x); o != nil {
+				uses[o]++
+			}
+		case *ast.CallExpr:
+			if isBigCall(x) {
+				if sel, ok := ast.Unparen(x.Fun).(*ast.SelectorExpr); ok {
+					if id, ok := ast.Unparen(sel.X).(*ast.Ident); ok {
+						if o := local(id); o != nil {
+							okUses[o]++
+						}
+					}
+				}
+				for _, a := range x.Args {
+					if id, ok := ast.Unparen(a).(*ast.Ident); ok {
+						if o := local(id); o != nil {
+							okUses[o]++
+						}
+					}
+				}
+			}
+		case *ast.AssignStmt:
+			for i, l := range x.Lhs {
+				if id, ok := l.(*ast.Ident); ok && i < len(x.Rhs) {
+					if o := local(id); o != nil {
+						if c, ok := ast.Unparen(x.Rhs[i]).(*ast.CallExpr); ok && isBigCall(c) {
+							okUses[o]++
+						}
+					}
+				}
+			}
+		}
+		return true
+	})
+	var out []*types.Var
+	for o, n := range uses {
+		if okUses[o] == n {
+			out = append(out, o)
+		}
+	}
+	// parameters may alias anything: only variables declared in the body qualify
+	var res []*types.Var
+	for _, o := range out {
+		if o.Pos() >= fr.fi.Decl.Body.Pos() {
+			res = append(res, o)
+		}
+	}
+	return res
 }
